@@ -728,3 +728,43 @@ def reuse_keeps_stack_rule(chk, cid, prog, p, cfgname):
                     'on the Fact = SamePattern_SameRowPerm branch ?LUMemInit %s although the factors of the previous call still lie at the head of work[]: the next '
                     'expansion moves nothing / hands their memory out again, and U, lsub, usub are overwritten with info = 0' % bad[1], cfgname=cfgname)
     return 1
+
+
+def companion_reserve_rule(chk, cid, prog, p, cfgname):
+    """In a caller workspace UCOL and USUB grow together (one value and one row subscript per entry of U).  When ?expand grows UCOL by `extra` bytes
+    it books room for the same number of int subscripts behind it.  `extra` bytes hold extra / sizeof(value) entries, which need
+    extra * sizeof(int) / sizeof(value) bytes of subscripts: the booked amount `extra / k` is enough iff k <= sizeof(value) / sizeof(int) -
+    k = 1 in single precision (a float is as wide as an int), at most 2 for double and single complex, 4 for double complex.  A smaller
+    reservation leaves the tail of usub[] above stack.top1, where the next expansion does not move it."""
+    VAL = {'s': 4, 'd': 8, 'c': 8, 'z': 16}
+    f = prog.func(p + 'expand')
+    if f is None:
+        raise AnalysisBroken('%sexpand not found' % p)
+    chk.saw(unit=f.unit, func=f.unit + ':' + f.name)
+    n = 0
+    for x in f.body.walk():
+        if x.k != 'If':
+            continue
+        c = strip(x.c[0])
+        if not (c.k == 'Binary' and c.a['op'] == '==' and 'UCOL' in canon(c, ids=False)):
+            continue
+        for a in x.c[1].walk():
+            if a.k == 'Assign' and a.a['op'] == '+=' and canon(a.c[0], ids=False).replace(' ', '') in ('Glu->stack.top1', 'Glu->stack.used'):
+                r = strip(a.c[1])
+                k = None
+                if r.k == 'Ref' and r.a.get('name') == 'extra':
+                    k = 1
+                elif r.k == 'Binary' and r.a['op'] == '/' and strip(r.c[0]).k == 'Ref' and strip(r.c[0]).a.get('name') == 'extra' and const_value(r.c[1]):
+                    k = const_value(r.c[1])
+                n += 1
+                inst = '%s:room-for-the-subscripts-of-the-new-U-entries:%s' % (f.name, canon(a.c[0], ids=False).split('.')[-1])
+                if k is not None and k * 4 <= VAL[p]:
+                    chk.ok(cid, inst, sample='`%s`: extra / %d bytes for ints next to %d-byte values' % (pretty(a)[:40], k, VAL[p]))
+                else:
+                    chk.violate(cid, inst, loc(f, a), f.name,
+                                '`%s` books %s for the row subscripts that accompany `extra` bytes of new U values; with %d-byte values and 4-byte subscripts at least '
+                                'extra / %d is needed: the upper part of the grown usub[] lies above stack.top1 and is left behind by the next in-workspace move'
+                                % (pretty(a)[:40], pretty(r)[:20], VAL[p], VAL[p] // 4), cfgname=cfgname)
+    if n < 2:
+        raise AnalysisBroken('%s: companion reservation for USUB not found' % f.name)
+    return n
